@@ -1,10 +1,12 @@
 #!/bin/sh
-# copies delivered refactoring twins of wave 6 from /tmp/wt7-out/<Cxx>/<i>/ to seeded/_twins6/<Cxx>/<i>/ (patch.diff + meta.json only)
+# tools/collect_twins.sh <out-root> <dest-name> Cxx...: copies delivered refactoring twins from <out-root>/<Cxx>/<i>/ to
+# seeded/<dest-name>/<Cxx>/<i>/ (patch.diff + meta.json only) and says whether each applies to /repo
+src=$1; dest=$2; shift 2
 for p in "$@"; do
   for i in 1 2 3; do
-    s=/tmp/wt7-out/$p/$i
+    s=$src/$p/$i
     [ -f $s/patch.diff ] || continue
-    d=/verif/seeded/_twins6/$p/$i
+    d=/verif/seeded/$dest/$p/$i
     mkdir -p $d
     cp $s/patch.diff $d/patch.diff
     [ -f $s/meta.json ] && cp $s/meta.json $d/meta.json
